@@ -77,13 +77,13 @@ def step (s : St) (line : String) : St × String :=
     | some p => (s, showPfxs (s.t.closestDescendants w p))
     | none => (s, "bad-op")
   | ["cp", a, b] => match parsePfx w a, parsePfx w b with
-    | some a, some b => (s, showPfx (commonPrefix w a b))
+    | some a, some b => (s, showPfx (if w = 128 then v6CommonPrefix a b else commonPrefix w a b))
     | _, _ => (s, "bad-op")
   | ["has", a, b] => match parsePfx w a, parsePfx w b with
-    | some a, some b => (s, showBool (a.contains w b.addr))
+    | some a, some b => (s, showBool (if w = 128 then v6Contains a b.addr else a.contains w b.addr))
     | _, _ => (s, "bad-op")
   | ["bit", a, n] => match parsePfx w a, n.toNat? with
-    | some a, some n => (s, toString (nthBit w a.addr n))
+    | some a, some n => (s, toString (if w = 128 then v6NthBit a.addr n else nthBit w a.addr n))
     | _, _ => (s, "bad-op")
   | ["slice"] => (s, showEntries s.t.toList)
   | ["dump"] => (s, s.t.dump showPfx toString)
